@@ -41,7 +41,8 @@ def required(tier):
                     'assoc-fields:vx_species:species-differ-per-part',
                     'ids:no', 'inputs:1', 'inputs:6', 'layout:inputs-in-separate-directories',
                     'metadata:non-ascii-text', 'naming:pattern:index-in-directory',
-                    'naming:pattern:zero-padded'],
+                    'naming:pattern:zero-padded',
+                    'layout:associated-parts-cut-at-other-boundaries'],
         'counters': {'seam_reads': 50, 'beyond_end_reads': 10, 'id_lookups': 50},
         'evaluations': 300,
     }
@@ -79,6 +80,7 @@ def one_merge(rng, workdir: Path, rec, k):
     uid = k * 10000
     id_pool = rng.sample(range(-500, 5000), 80)
     model, ids, seams, bases, assocs = [], {}, [], [], []
+    all_trajs = []
     max_nb = 1
     spread = (not pattern) and rng.random() < 0.4     # every input in a directory of its own
     for j_, name in enumerate(names):
@@ -102,6 +104,7 @@ def one_merge(rng, workdir: Path, rec, k):
                 t.add_fields(vf.ALL[assoc_fs])
                 vf.fill(t, assoc_fs, rng, plan=plan_part, unset_prob=0.0)
             st.add(t)
+            all_trajs.append(t)
             max_nb = max(max_nb, t.nbytes)
             if with_ids:
                 ids[fid] = len(model)
@@ -110,11 +113,30 @@ def one_merge(rng, workdir: Path, rec, k):
         seams.append(len(model))
         bases.append(base)
         assocs.append(assoc)
+    repartitioned = False
+    if with_assoc and not pattern and not per_part_species and nin >= 2 and len(model) > nin \
+            and rng.random() < 0.45:
+        # the associated data of the SAME trajectories written by a second job that chunks
+        # the work differently: same number of files, other boundaries
+        cuts = sorted(rng.sample(range(1, len(model)), nin - 1))
+        if cuts + [len(model)] != seams:
+            repartitioned = True
+            assocs = []
+            for g, (a_, b_) in enumerate(zip([0] + cuts, cuts + [len(model)])):
+                wb = d / f'work_base_{g}.nc'
+                ax = d / f'y_{g:02d}.nc'
+                with TrajectoryStore.create(base_file=wb,
+                                            associated_files=[(ax, [assoc_fs])]) as st2:
+                    for t in all_trajs[a_:b_]:
+                        st2.add(t)
+                assocs.append(ax)
+            rec.cls('layout:associated-parts-cut-at-other-boundaries')
     out = d / 'merged.aeic-store'
     case = {'assoc_fields': assoc_fs if with_assoc else None,
             'species_differ_per_part': per_part_species, 'inputs': names, 'sizes': [b - a for a, b in zip([0] + seams, seams)],
             'pattern': pattern, 'ids': with_ids, 'assoc': with_assoc,
-            'inputs_in_separate_directories': spread}
+            'inputs_in_separate_directories': spread,
+            'associated_parts_cut_at_other_boundaries': repartitioned}
     if spread:
         rec.cls('layout:inputs-in-separate-directories')
     # free-text metadata of the merged store (any Unicode text is legal)
@@ -409,6 +431,7 @@ def many_parts(rng, workdir: Path, rec, nparts):
 
 
 def run_shard(spec, rec):
+    from vlib import failpoints
     from vlib.storeops import Mismatch
 
     workdir = Path(tempfile.mkdtemp(prefix='c09-'))
@@ -425,7 +448,11 @@ def run_shard(spec, rec):
                              ('name-clashes', name_clashes)):
                 rng = random.Random(f"{spec['seed']}-{k}-{part}")
                 try:
-                    c = fn(rng, workdir, rec, k)
+                    clock = 'whole-second' if k % 5 == 3 else None
+                    with failpoints.store_clock(clock):
+                        c = fn(rng, workdir, rec, k)
+                    if clock:
+                        rec.cls('clock:whole-second-creation-stamp')
                     if k == 0 and c:
                         rec.sample(c)
                 except Mismatch as m:
